@@ -115,12 +115,12 @@ RENAME_CORPUS = [
      "src": "fun u(): Int {\n  let s = \"\u00e9\U0001F600\"  let n = 1\n  println(s)  n + n\n}\nprintln(string_repr(u()))\n"},
 ]
 BOUNDED = [
-    {"name": "rename_corpus", "kind": "rename-corpus", "props": ["C19"], "input": RENAME_CORPUS, "n_inputs": len(RENAME_CORPUS),
-     "bound": "%d listed programs with shadowing (match payloads, closure parameters, for variables, nested lets, catch variables): the rename rewrites the expected number of occurrences and the renamed program prints the same output" % len(RENAME_CORPUS),
+    {"name": "rename_corpus", "kind": "rename-corpus", "props": ["C19"], "input": RENAME_CORPUS, "n_inputs": len(RENAME_CORPUS) + 80, "prelude_collisions": True, "min_inputs": len(RENAME_CORPUS) + 20,
+     "bound": "%d listed programs with shadowing (match payloads, closure parameters, for variables, nested lets, catch variables) plus up to 80 generated ones in which the renamed local is defined at the byte offset where a prelude definition's name starts: the rename rewrites the expected number of occurrences and the renamed program prints the same output" % len(RENAME_CORPUS),
      "expect": {}},
 ]
 WITNESSES = [
-    {"match": r"rename\.", "kind": "rename-corpus", "props": ["C19"], "input": RENAME_CORPUS, "expect": {}, "note": "renames under shadowing"},
+    {"match": r"rename\.", "kind": "rename-corpus", "props": ["C19"], "input": RENAME_CORPUS, "prelude_collisions": True, "expect": {}, "note": "renames under shadowing and at offsets that collide with prelude definitions"},
     {"match": r"rename\.", "kind": "rename", "props": ["C19"],
      "input": "fun f(x: Int): Int {\n  let s = \"é\U0001F600\"  let y = x + 1\n  let g = fun(x: Int) { x * 2 }\n  y + g(x) + x\n}\n\nprintln(string_repr(f(3)))\n",
      "offset": 6, "new_name": "renamed_x",
